@@ -273,7 +273,8 @@ def run_verus_unit(u, scratch, tier, extra_flags=()):
     # verifier for the rest of the function and can hide the failure of the code's own obligation: verify the unit once more
     # without those hints; what then fails and does not need the removed hint on the unchanged tree (hint_deps.json) counts
     bad_sites = set()
-    if vx.ABLATE_HINT[0] is None:
+    # (only when nothing but hints fails: a run that already shows a failing clause or code obligation stands as it is)
+    if vx.ABLATE_HINT[0] is None and not os.environ.get("VERIF_NO_HINT_RETRY") and res["failures"] and all(f.get("hint_only") for f in res["failures"]):
         for f in res["failures"]:
             if not f.get("hint_only"):
                 continue
